@@ -223,7 +223,7 @@ func (b *regBackend) close() {
 // ---- one history
 
 type regRun struct {
-	stuck bool // a writer call never returned
+	stuck    bool // a writer call never returned
 	c        *Ctx
 	u        *regUniverse
 	backends []*regBackend
